@@ -16,6 +16,7 @@ def faulty(x):
 def run(tier, rep):
     pc.check(rep, "C08", tier, ["errors", "text"], {"verdict", "error-kind"}, "C08",
              sessions=1500 if tier == "quick" else 20000, nontrivial=faulty, rule=RULE, damage=45,
+             case_filter=lambda m: m.get("default_cfg", True),      # C08 is stated for a default-configured reader
              invariants=["TypeOK", "Verdict", "NoRootOnlyForParse", "Total"])
     rep.assumptions += ["the expected verdict is computed from the events a second, default-configured quick_xml::Reader "
                         "reports for the same bytes (harness/src/events.rs), not from the library",
